@@ -1,0 +1,25 @@
+//go:build verif
+
+package s2
+
+import "github.com/golang/geo/r3"
+
+// Thin wrappers exporting unexported functions to the verification harness (property C16).
+// Add-only; no behaviour of the package changes.
+
+func VerifIntersectionStable(a0, a1, b0, b1 Point) (Point, bool) {
+	return intersectionStable(a0, a1, b0, b1)
+}
+func VerifIntersectionStableSorted(a0, a1, b0, b1 Point) (Point, bool) {
+	return intersectionStableSorted(a0, a1, b0, b1)
+}
+func VerifIntersectionExact(a0, a1, b0, b1 Point) Point { return intersectionExact(a0, a1, b0, b1) }
+func VerifCompareEdges(a0, a1, b0, b1 Point) bool       { return compareEdges(a0, a1, b0, b1) }
+func VerifProjection(x, aNorm r3.Vector, aNormLen float64, a0, a1 Point) (float64, float64) {
+	return projection(x, aNorm, aNormLen, a0, a1)
+}
+func VerifRobustNormalWithLength(x, y r3.Vector) (r3.Vector, float64) {
+	return robustNormalWithLength(x, y)
+}
+func VerifRoundingEpsilon() float64   { return roundingEpsilon(float64(0)) }
+func VerifIntersectionError() float64 { return float64(intersectionError) }
